@@ -335,7 +335,7 @@ CTOR_ORDER = ["H0", "h", "flat", "omega_m", "omega_l", "omega_k"]
 CTOR_F4 = True
 
 
-def build(kw, form=None):
+def build(kw, form=None, reinit=None):
     """form (constructor input forms, report section 10): {"types": {key: "np.f8" | "np.f4" | "np.i8" | "py-int"},
     "explicit_none": [keys passed explicitly as None], "positional": bool}"""
     from esutil.cosmology import Cosmo
@@ -352,7 +352,14 @@ def build(kw, form=None):
         K = _STATE["K"]
         dflt = {"H0": K["DEFAULT_H0"], "h": None, "flat": K["DEFAULT_FLAT"], "omega_m": K["DEFAULT_OMEGA_M"],
                 "omega_l": K["DEFAULT_OMEGA_L"], "omega_k": None}
-        return Cosmo(*[args.get(k, dflt[k]) for k in CTOR_ORDER])
+        pos = [args.get(k, dflt[k]) for k in CTOR_ORDER]
+        if reinit is not None:
+            reinit.__init__(*pos)
+            return reinit
+        return Cosmo(*pos)
+    if reinit is not None:                 # the same object given a second parameter set through its constructor
+        reinit.__init__(**args)
+        return reinit
     return Cosmo(**args)
 
 
@@ -881,6 +888,229 @@ class Dispatch(Entry):
 
 
 # ----------------------------------------------------------------------------------------------
+# entry: sequence (several objects / clones / interleaved calls in ONE process; history independence)
+# ----------------------------------------------------------------------------------------------
+# cosmologies that collide in what a too-coarse cache key would use: equal normalised omegas with different H0 (given as H0 or
+# through h), equal H0 with different omegas, explicit defaults, omega_k = 0 / -0.0 given (normalises to the default), flat flag
+# ignored, almost-flat curved twins, equal omega_m with either sign of omega_k, equal (omega_m, omega_k) with different omega_l
+COLLIDE = [
+    {}, {"h": 0.7}, {"H0": 70.0}, {"H0": 100.0, "omega_m": 0.3}, {"H0": 100.0, "h": 0.7}, {"h": 1.0},
+    {"omega_m": 0.3, "omega_k": 0.0, "omega_l": 0.2}, {"omega_k": -0.0}, {"omega_m": 0.3, "flat": False},
+    {"omega_m": 0.25}, {"omega_m": 0.25, "H0": 70.0}, {"omega_m": 0.3, "omega_l": 0.7, "omega_k": 1e-6},
+    {"omega_m": 0.3, "omega_l": 0.7, "omega_k": -1e-6}, {"omega_m": 0.3, "omega_l": 0.5, "omega_k": 0.2},
+    {"omega_m": 0.3, "omega_l": 0.9, "omega_k": -0.2}, {"omega_m": 0.3, "omega_l": 0.6, "omega_k": 0.2},
+    {"omega_m": 0.3, "omega_l": 0.5, "omega_k": 0.2, "H0": 70.0}, {"omega_m": 0.3, "omega_l": 0.5, "omega_k": 0.2, "h": 0.7},
+    {"omega_m": 0.3, "omega_l": 0.5, "omega_k": 0.2, "flat": True},
+]
+SEQ_CALLS = [("Dc", [0.0, 1.0]), ("Da", [0.3, 2.0]), ("Dl", [0.0, 0.5]), ("Dm", [0.2, 4.5]), ("sigmacritinv", [0.2, 0.8]),
+             ("sigmacritinv", [0.5, 0.5]), ("sigmacritinv", [0.0, 0.0]), ("V", [0.1, 1.3]), ("dV", [0.7]), ("Ez_inverse", [1.1]),
+             ("distmod", [0.5]), ("Ezinv_integral", [0.0, 2.0]), ("Dc", [1.0, 1.0]), ("Dc", [2.0, 0.5]), ("Dm", [0.0, 0.0]),
+             ("Da", [0.0, 5.0])]
+ERRCODE = {"EValue": 1, "EType": 2, "EIndex": 3, "ERuntime": 4}
+
+
+def sibling(ctx, kw, K):
+    """a cosmology that shares most of what a lazy key would use with kw"""
+    r = ctx.rng
+    for _ in range(20):
+        k2 = dict(kw)
+        how = r.choice(["H0", "h", "om", "ok-sign", "ol", "same"])
+        if how == "H0":
+            k2.pop("h", None)
+            k2["H0"] = r.choice([30.0, 70.0, 100.0, 120.0, 67.4])
+        elif how == "h":
+            k2["h"] = r.choice([0.3, 0.7, 1.0, 1.2])
+        elif how == "om":
+            k2["omega_m"] = r.choice([0.2, 0.25, 0.3, 0.315, 0.4])
+        elif how == "ok-sign" and k2.get("omega_k") not in (None, 0.0):
+            k2["omega_k"] = -k2["omega_k"]
+            k2["omega_l"] = 1.0 - k2.get("omega_m", 0.3) - k2["omega_k"]
+        elif how == "ol" and k2.get("omega_k") not in (None, 0.0):
+            k2["omega_l"] = k2.get("omega_l", 0.7) + r.choice([0.1, -0.1])
+        if in_domain(k2, K):
+            return k2
+    return dict(kw)
+
+
+class Sequence(Entry):
+    name = "sequence"
+    search_rounds = 1
+
+    def __init__(self):
+        self.server = None
+
+    # ---- generation
+    def _calls(self, r, oid, k=3, arrs=None):
+        st = []
+        for meth, args in r.sample(SEQ_CALLS, k):
+            st.append(["call", oid, meth, list(args)])
+        return st
+
+    def _template(self, ctx, P, Q, R, t):
+        r = ctx.rng
+        fP, fQ = gen_form(r, P), gen_form(r, Q)
+        if t == 0:      # both constructed, calls interleaved, first calls repeated at the end
+            first = self._calls(r, "x", 3)
+            return ([["new", "x", P, fP], ["new", "y", Q, fQ]] + first + self._calls(r, "y", 3) + self._calls(r, "x", 2)
+                    + self._calls(r, "y", 2) + first)
+        if t == 1:      # clones made before and after another construction; originals and clones used afterwards
+            o1, o2, o3 = r.randrange(0, 6), r.randrange(0, 6), r.randrange(0, 6)
+            return ([["new", "x", P, fP], ["clone", "x1", "x", o1], ["new", "y", Q, fQ], ["clone", "x2", "x", o2],
+                     ["clone", "y1", "y", o3], ["clone", "x3", "x1", r.randrange(0, 6)]]
+                    + self._calls(r, "x1", 2) + self._calls(r, "y1", 2) + self._calls(r, "x2", 2) + self._calls(r, "x3", 2)
+                    + self._calls(r, "x", 2) + self._calls(r, "y", 2))
+        if t == 2:      # object dropped, another one constructed (address reuse), the first parameter set constructed again
+            return ([["new", "x", P, fP]] + self._calls(r, "x", 2) + [["del", "x"], ["new", "y", Q, fQ]] + self._calls(r, "y", 3)
+                    + [["new", "z", P, fP]] + self._calls(r, "z", 2) + [["del", "y"], ["new", "w", R, {}]] + self._calls(r, "w", 2)
+                    + self._calls(r, "z", 2))
+        if t == 3:      # the same argument OBJECT passed again after an in-place change; an equal but distinct array
+            v1 = sorted(r.uniform(0, 5) for _ in range(4))
+            v2 = sorted(r.uniform(0, 5) for _ in range(4))
+            v2[0], v2[-1] = v1[0], v1[-1]                         # equal length, equal first / last element
+            meth = r.choice(TWO)
+            return [["new", "x", P, fP], ["new", "y", Q, fQ], ["setarr", "a", v1], ["call", "x", meth, [{"arr": "a"}, 5.0]],
+                    ["call", "y", meth, [{"arr": "a"}, 5.0]], ["setarr", "a", v2], ["call", "x", meth, [{"arr": "a"}, 5.0]],
+                    ["call", "y", meth, [0.0, {"arr": "a"}]], ["newarr", "b", v2], ["call", "x", meth, [{"arr": "b"}, 5.0]],
+                    ["setarr", "a", v1], ["call", "x", meth, [{"arr": "a"}, {"arr": "b"}]], ["call", "x", "Ez_inverse", [{"arr": "a"}]],
+                    ["setarr", "a", v2], ["call", "x", "Ez_inverse", [{"arr": "a"}]], ["call", "y", "dV", [{"arr": "a"}]]]
+        if t == 5:      # churn: many short-lived objects of alternating parameter sets (address / id() reuse by later objects)
+            st = []
+            for i, kw in enumerate([P, Q, R, P]):
+                st.append(["new", "a%d" % i, kw, {}])
+            for i in (0, 2, 1, 3):
+                st.append(["del", "a%d" % i])
+            meth, args = r.choice(SEQ_CALLS)
+            for i in range(14):
+                kw = [Q, P, R][i % 3] if i % 2 else [P, Q][(i // 2) % 2]
+                st += [["new", "t%d" % i, kw, {}], ["call", "t%d" % i, meth, list(args)], ["del", "t%d" % i]]
+            st += [["new", "k", P, fP], ["new", "l", Q, fQ]] + self._calls(r, "k", 2) + self._calls(r, "l", 2)
+            return st
+        # three objects, every pair constructed in both relative orders over the sequence
+        return ([["new", "x", P, fP], ["new", "y", Q, fQ], ["new", "z", R, {}]] + self._calls(r, "z", 2) + self._calls(r, "x", 2)
+                + [["del", "x"], ["new", "x", P, fP], ["clone", "z1", "z", r.randrange(0, 6)]] + self._calls(r, "y", 2)
+                + self._calls(r, "x", 2) + self._calls(r, "z1", 2)
+                # the same object re-initialised with a second parameter set; its earlier clone must keep the old one
+                + [["reinit", "y", R, {}]] + self._calls(r, "y", 2) + [["reinit", "z", Q, fQ]] + self._calls(r, "z", 2)
+                + self._calls(r, "z1", 2))
+
+    def cases(self, ctx, round=0):
+        K, r, cs = _STATE["K"], ctx.rng, []
+        pairs = []
+        if round == 0:
+            # every collision pair of the first six (H0 / h / explicit defaults) in BOTH orders, then a sample of the rest
+            for i in range(6):
+                for j in range(6):
+                    if i != j:
+                        pairs.append((COLLIDE[i], COLLIDE[j]))
+        for _ in range(ctx.n(20, 150)):
+            if r.random() < 0.6:
+                P, Q = r.sample(COLLIDE, 2)
+            else:
+                P = gen_cosmo(ctx, r.choice(["flat", "open", "closed", "concordance"]), K)
+                Q = sibling(ctx, P, K)
+            pairs.append((P, Q))
+            pairs.append((Q, P))
+        for n, (P, Q) in enumerate(pairs):
+            R = r.choice(COLLIDE)
+            t = n % 6
+            cs.append({"steps": self._template(ctx, dict(P), dict(Q), dict(R), t), "family": "seq-template-%d" % t})
+        return cs
+
+    # ---- execution
+    @staticmethod
+    def lineage(steps):
+        """oid -> (root kw, root form, clone ops) at each point of the sequence; returns per-step snapshot for call steps"""
+        lin, arrs, snap = {}, {}, []
+        for st in steps:
+            if st[0] in ("new", "reinit"):
+                lin[st[1]] = (st[2], st[3], [])
+            elif st[0] == "clone":
+                k, f, ops = lin[st[2]]
+                lin[st[1]] = (k, f, ops + [st[3]])
+            elif st[0] in ("setarr", "newarr"):
+                arrs[st[1]] = list(st[2])
+            snap.append((dict(lin), dict(arrs)))
+        return snap
+
+    def impl(self, c):
+        from . import c11_seq
+        if self.server is None:
+            self.server = c11_seq.Server(_STATE["K"])
+        steps = c["steps"]
+        res = self.server.run(steps)
+        if "crash" in res:
+            return {"crash": res["crash"]}
+        out = res["out"]
+        snap = self.lineage(steps)
+        items, seq, alone = [], [], []
+        live = {}
+        for i, (st, o) in enumerate(zip(steps, out)):
+            lin, arrs = snap[i]
+            if st[0] in ("new", "clone", "rep", "reinit"):
+                items.append([st[1], lin[st[1]][0], lin[st[1]][2], o])
+                if st[0] != "rep":
+                    live[st[1]] = True
+            elif st[0] == "del":
+                live.pop(st[1], None)
+            elif st[0] == "call":
+                k, f, ops = lin[st[1]]
+                ref = [["new", "r0", k, f]]
+                cur = "r0"
+                for n, op in enumerate(ops):
+                    ref.append(["clone", "r%d" % (n + 1), cur, op])
+                    cur = "r%d" % (n + 1)
+                for a in st[3]:
+                    if isinstance(a, dict) and "arr" in a:
+                        ref.append(["newarr", a["arr"], arrs[a["arr"]]])
+                ref.append(["call", cur, st[2], st[3]])
+                rr = self.server.run(ref)
+                seq.append(o)
+                alone.append(rr["out"][-1] if "out" in rr else ["err", "crash"])
+        # every live object's reported parameters once more at the end of the sequence (in a run of its own that repeats
+        # the whole sequence and appends the rep steps: the executor is deterministic)
+        tail = [["rep", oid] for oid in sorted(live)]
+        if tail:
+            r2 = self.server.run(steps + tail)
+            if "out" in r2:
+                lin, _ = snap[-1]
+                for st, o in zip(tail, r2["out"][len(steps):]):
+                    items.append([st[1], lin[st[1]][0], lin[st[1]][2], o])
+        return {"items": items, "seq": seq, "alone": alone}
+
+    @staticmethod
+    def _flat(results):
+        fl, finite = [], True
+        for o in results:
+            if o[0] == "ok":
+                fl += [len(o[1])] + list(o[1])
+                finite = finite and all(bits_finite(b) for b in o[1])
+            else:
+                fl += [-1, ERRCODE.get(o[1], 9)]
+        return fl, finite
+
+    def term(self, c, out):
+        if "crash" in out:
+            return "3"
+        its = []
+        for _oid, kw, ops, rep in out["items"]:
+            if not (isinstance(rep, list) and len(rep) == 6):
+                return "3"                    # a constructor / clone operation raised inside the domain
+            its.append("(%s, %s, %s)" % (c_kw(kw), core.clist(ops), c_rep(rep)))
+        seq, fin = self._flat(out["seq"])
+        alone, _ = self._flat(out["alone"])
+        t = "v_sequence [%s] %s %s" % ("; ".join(its), core.clist(seq), core.clist(alone))
+        if not fin or any(o[0] != "ok" for o in out["seq"]):
+            return "Z.lor 2 (%s)" % t        # NaN / inf / an exception from a call whose arguments are inside the domain
+        return t
+
+    def nontrivial(self, c, out):
+        return True
+
+    def show(self, c):
+        return None
+
+
+# ----------------------------------------------------------------------------------------------
 # certificates
 # ----------------------------------------------------------------------------------------------
 def branch(rep):
@@ -1205,6 +1435,8 @@ TRUSTED = [
     "IEEE rounding of the formula chain is not bounded a priori but certified per sampled case (|out - R model| <= 1e-12 |out|)",
     "modelled, not verified: numpy.isscalar / asarray(dtype f8, order C) / atleast_1d conversions, PyArg_ParseTuple('d'), "
     "pickle and copy protocols of CPython (the harness drives the real ones)",
+    "sequence entry: os.fork of a pristine zygote process gives every step list (and every reference call) module state of its own; "
+    "CPython's allocator decides whether a dropped object's address is reused (churn template: observed, not guaranteed)",
     "python harness (harness/props/C11.py: generators, float port used only to produce oracle tables and table literals, "
     "literal printers binary64 -> hex float / exact integer fraction), coqc evaluating Exec.v verdicts and Cert.check",
 ]
@@ -1215,7 +1447,10 @@ def run(ctx, replay=None):
                 "H0 in [30,120] or h; z pairs from 0, equal, 1e-9..1e-3 apart, z<=1, up to 5, random) + seeded random; cosmologies with "
                 "E(z)^2 < 0.05 somewhere on [0,5] or (closed) z=5 beyond u=2.6 are outside the domain of the definitions and resampled "
                 "(counted). Every case runs on the real esutil and in Coq. non-trivial: zmax > zmin > 0, or an array argument, or a "
-                "non-flat universe (params: a clone operation or omega_k given non-zero). distinct by canonical JSON.")
+                "non-flat universe (params: a clone operation or omega_k given non-zero). distinct by canonical JSON. sequence entry: step lists "
+                "(constructions with colliding parameters in both orders, clones before/after other constructions, drops and "
+                "re-creations, interleaved calls, the same array object passed again after an in-place change) executed in a child forked "
+                "from a pristine process; every reported tuple against the history-free model, every call against the same call made alone.")
     ctx.trusted = TRUSTED
     # 0. regenerate Gen.v from the working tree
     try:
@@ -1247,7 +1482,8 @@ def run(ctx, replay=None):
         return
     lap("proof_step")
     chain = Chain()
-    entries = [Params(), chain, Dispatch()]
+    sequence = Sequence()
+    entries = [Params(), chain, Dispatch(), sequence]
     if replay is not None:
         ent = replay.get("entry")
         if ent in ("cert", "accuracy"):
@@ -1268,7 +1504,11 @@ def run(ctx, replay=None):
     lap("tables")
     pre = PRE + "Definition cosv : oracle := %s.\n" % cosv
     # 3. differential entries
-    differential(ctx, pre, entries, replay)
+    try:
+        differential(ctx, pre, entries, replay)
+    finally:
+        if sequence.server is not None:
+            sequence.server.close()
     if replay is not None:
         return
     # 4. / 5. certificates
